@@ -112,6 +112,8 @@ class CronWorld(object):
         self.total_lines = {}
         self.fires = []
         self.triggers = {}
+        self.stolen = []        # (unit, trigger id, seq)
+        self._steal_fn = None
 
     # transport hook: the engine client stub
     def send(self, msg):
@@ -182,7 +184,54 @@ class CronWorld(object):
             from mistral import context as auth_context
             auth_context.set_ctx(None)
 
+    def _install_steal(self):
+        """Concurrent-writer injection (scenario flag 'steal'): right before
+        this process's DELETE of a cron trigger row reaches the database,
+        another process's DELETE of the same row takes effect (what a second
+        API process does between this one's SELECT and DELETE under READ
+        COMMITTED).  This process then lost the arbitration for the last
+        execution and must not start the workflow."""
+        if not self.sc.get('steal'):
+            return
+        from sqlalchemy import event
+        import mistral.db.sqlalchemy.base as b
+        w = self
+
+        def steal(conn, cursor, statement, parameters, context,
+                  executemany):
+            st = statement.lstrip().upper()
+            if not st.startswith('DELETE FROM CRON_TRIGGERS_V2') or \
+                    w._in_steal:
+                return
+            u = w.coop.current()
+            if u is None or any(x[0] == u.uid for x in w.stolen):
+                return
+            w._in_steal = True
+            try:
+                cursor.execute(statement, parameters)
+            finally:
+                w._in_steal = False
+            tid = parameters[0] if parameters else None
+            w.stolen.append((u.uid, tid, len(w.rec.events)))
+            w.rec.emit('FAULT', fault='row-deleted-by-another-process',
+                       trigger=tid)
+        self._in_steal = False
+        self._steal_fn = steal
+        self._steal_engine = b.get_engine()
+        event.listen(self._steal_engine, 'before_cursor_execute', steal)
+
+    def _remove_steal(self):
+        if self._steal_fn is not None:
+            from sqlalchemy import event
+            try:
+                event.remove(self._steal_engine, 'before_cursor_execute',
+                             self._steal_fn)
+            except Exception:
+                pass
+            self._steal_fn = None
+
     def _install_failpoint(self):
+        self._install_steal()
         from mistral.services import periodic
         from mvf import failpoint
         codes = [periodic.process_cron_triggers_v2.__code__,
@@ -205,6 +254,7 @@ class CronWorld(object):
         failpoint.activate(codes, on_line)
 
     def _remove_failpoint(self):
+        self._remove_steal()
         from mvf import failpoint
         failpoint.deactivate()
 
@@ -412,7 +462,21 @@ def judge(sc, r, res, desc):
                  % (t['project'], f['project'], f['trust_id']))
     # each advance <-> exactly one fire by the same unit
     used = set()
+    stolen = set((u, t) for u, t, _ in w.stolen)
+    for u_, t_, seq_ in w.stolen:
+        res['monitor_evaluations']['lost-delete'] = \
+            res['monitor_evaluations'].get('lost-delete', 0) + 1
+        for i, f in enumerate(fires):
+            if f['unit'] == u_ and f.get('tid') == t_ and f['seq'] > seq_:
+                used.add(i)
+                viol('fired-after-losing-the-delete',
+                     'the row of trigger %s had already been deleted by '
+                     'another process when processor %s executed its '
+                     'DELETE (0 rows), yet it started the workflow: the '
+                     'last execution fires twice' % (t_, f['proc']))
     for adv in advances:
+        if (adv['unit'], adv['tid']) in stolen and adv['kind'] == 'delete':
+            continue      # that deletion is the other process's
         mine = [i for i, f in enumerate(fires)
                 if f.get('tid') == adv['tid'] and f['unit'] == adv['unit']
                 and i not in used and f['seq'] > adv['seq']]
@@ -452,7 +516,8 @@ def judge(sc, r, res, desc):
             if n >= cnt and tid in final:
                 viol('not-removed-after-last', 'trigger %s fired %d times '
                      '(count %s) but still exists' % (t['name'], n, cnt))
-            if tid not in final and n < cnt and not w.crashed:
+            if tid not in final and n < cnt and not w.crashed and \
+                    not any(t_ == tid for _, t_, _ in w.stolen):
                 viol('removed-early', 'trigger %s removed after %d of %s '
                      'fires' % (t['name'], n, cnt))
     for ev in w.rec.events:
@@ -497,6 +562,19 @@ def run_case(case):
     base = one(kind='fifo')
     if base.get('inconclusive'):
         return res
+    if any(t.get('count') == 1 or not t.get('pattern')
+           for t in sc['triggers']):
+        sc_steal = dict(sc, steal=True)
+        for st_name in ('fifo', 'random'):
+            r = execute(sc_steal, None, world_mod.Strategy(
+                st_name, prng.randint(0, 10 ** 6)), None)
+            res['executions'] += 1
+            if r['inconclusive']:
+                res['inconclusive'] = r['inconclusive']
+                continue
+            judge(sc_steal, r, res, {'scenario': sc_steal,
+                                     'choices': list(r['world'].choices),
+                                     'crash': None, 'explore': 'steal'})
     if case['dfs']:
         stack = [[]]
         n = 0
